@@ -149,6 +149,8 @@ def sample_prefix(rng, cfg, max_len=4, p_any=0.35, allow_path=True, allow_mutate
     ops = []
     for _ in range(rng.randint(1, max_len)):
         k = weighted(rng, kinds)
+        if ops and ops[-1]["op"] in ("set_params", "mutate_data", "crash_fit") and rng.random() < 0.4:
+            k = "fit"          # the classic sequence: change something (or fail), then fit again
         op = {"op": k}
         if k in ("fit", "crash_fit", "score", "predict", "bad_fit", "mutate_data", "path", "crash_path", "nan_path"):
             op["data"] = rng.randrange(2)
